@@ -22,6 +22,9 @@ checks = {
  "C11": (MC, "dbmodel", "explicit-state BFS over database operation sequences on the real ldb backend against a nested-map model",
    "Every sequence of transaction/bucket/key operations within the stated bounds is executed on the real LevelDB backend and after each one the complete readable content (through the open write transaction and through a fresh read transaction) is compared with a nested-map reference; a second pass covers the directory-backed create/open/close path.",
    "§5 C11"),
+ "C12": (MC, "histbfs", "explicit-state BFS over new-address/payment/reorg/restart histories with restore probes, per gap limit",
+   "For gap limits 2,3(,4): every history of address requests of both classes, payments to issued addresses, reorganisations removing payments and restarts up to the stated depth; each NewAddress outcome is compared with the issuing rule and with an independent derivation of the next address; in every state the listings, used flags and the ledger are compared with the reference and three mnemonic restores into a fresh second instance must rediscover every address with best-chain history.",
+   "§5 C12"),
  "C13": (MC, "enum", "bounded-exhaustive input enumeration against an independent BIP-39 reference",
    "Input-bounded model checking: every member of the described entropy / word-sequence families is run through the real mnemonic code and compared with an independent reference validated against BIP-39 vectors.", "§5 C13"),
  "C14": (MC, "enum", "bounded-exhaustive (seed x path) and corruption enumeration against an independent BIP-32 reference",
